@@ -1,0 +1,7 @@
+//go:build !verif
+
+package p2pke
+
+func verifSessionID(s *Session) uint64 { return 0 }
+
+func verifAdjustConfig(params *ChannelConfig) {}
